@@ -250,9 +250,6 @@ func (g *Gen) varScenario(focus string) (string, []string) {
 	if g.Intn(6) == 0 {
 		tfi = g.Intn(3)
 	}
-	if catalogTFs[tfi].name == "4H" { // not queryable (C08-F27): covered by the fixed-length scenarios
-		tfi = 3
-	}
 	tf := catalogTFs[tfi]
 	sc := g.schema()
 	nowYear := time.Now().UTC().Year()
@@ -416,9 +413,6 @@ func init() {
 
 func (g *Gen) multiScenario() (string, []string) {
 	tfi := 3 + g.Intn(len(catalogTFs)-3)
-	if catalogTFs[tfi].name == "4H" {
-		tfi = 3
-	}
 	tf := catalogTFs[tfi]
 	sc := g.schema()
 	nowYear := time.Now().UTC().Year()
